@@ -113,7 +113,9 @@ CaseJson == [cmds |-> cmds, outcome |-> status, nt |-> StyleBeforeDraw,
 
 (* exhaustive runs: one case per sequence (CONSTRAINT, always TRUE) *)
 Emit == HasDraw => PrintT(ToJson(CaseJson))
-(* simulation runs: one case per finished random sequence (INVARIANT, always TRUE) *)
+(* simulation runs (INVARIANT, always TRUE): TLC evaluates it on every successor it *)
+(* generates, so each random walk prints all the one-call extensions of  *)
+(* its states that end a sequence                                         *)
 EmitSim == (HasDraw /\ (Len(cmds) = MaxLen \/ status # "ok")) => PrintT(ToJson(CaseJson))
 
 ---------------------------------------------------------------------------
